@@ -152,6 +152,12 @@ def run_property(prop, tier, seed, workers=None, extra_evidence=None, kani_part=
         return 2
     st = meta.get("selftest", {}).get("all" if tier == "thorough" else "lib") or {}
     selftest_ok = st.get("rc") == 0
+    kani_bad = []
+    if tier == "thorough" and kani_part is None:
+        from . import kani_engine
+        if prop in kani_engine.KERNELS:
+            print(f"[{prop}] running the supporting Kani kernel harnesses ({', '.join(kani_engine.KERNELS[prop])})", file=sys.stderr, flush=True)
+            kani_part, kani_bad = kani_engine.kernels_for(prop)
     tds = mod.templates(tier, seed)
     jobs = [(prop, td, {}) for td in tds]
     # sensitivity twins: deliberately wrong oracles that must be refuted
@@ -234,6 +240,16 @@ def run_property(prop, tier, seed, workers=None, extra_evidence=None, kani_part=
             print(f"  template={cf['tpl']} obligation={cf['obl']} violated={cf['violated']} values={cf['vals']} (+{d['more']} more of role '{role}')", flush=True)
             print(f"  document: {cf['docs'][0][:400]}", flush=True)
             print(f"  native: {cf['native'][0][0]} {cf['native'][0][1][:200]} {cf['native'][0][2][:400]}", flush=True)
+    for (kh, kp) in kani_bad:
+        kn = [k for k in known if k["role"] == f"{prop}/kernel/{kh}"]
+        if kn:
+            print(f"KNOWN-FINDING: property={prop} {kn[0]['what']}", flush=True)
+        else:
+            print(f"VIOLATION property={prop} replay={kp}", flush=True)
+            print(f"  Kani kernel harness {kh} fails and its counterexample reproduces natively (cargo kani playback)", flush=True)
+            exit_code = 1
+    if kani_part and any(v["status"] in ("inconclusive", "unconfirmed") for v in kani_part["harnesses"].values()):
+        print(f"NOTE property={prop}: Kani kernel harness(es) without a verdict: " + ", ".join(k for k, v in kani_part["harnesses"].items() if v["status"] in ("inconclusive", "unconfirmed")), flush=True)
     if twin_total and twin_refuted < twin_total:
         print(f"INCONCLUSIVE property={prop}: {twin_total - twin_refuted} of {twin_total} deliberately wrong oracle twins were not refuted (machinery error)", flush=True)
         if exit_code == 0:
